@@ -111,6 +111,10 @@ type Opts struct {
 	// node-local options (must not influence consensus results)
 	MinGasPricesNode string
 	InvCheckPeriod   uint
+	// SkipFirstBlock: New returns right after InitChain. Nothing is committed yet, so the chain cannot be read (Ctx, Seq,
+	// Bal ...) before its first Deliver: build the transactions of block 1 on a Replica (which has run an empty block 1).
+	SkipFirstBlock bool
+	EvmTracer      string // app option evm.tracer (json|struct|access_list|markdown): a debugging aid of the node operator
 }
 
 // DefaultOpts is the genesis used unless a driver says otherwise.
@@ -154,7 +158,7 @@ func NewApp(db sdkdb.DB, o Opts) (*chainapp.Evermint, params.EncodingConfig) {
 		inv = 5
 	}
 	app := chainapp.NewEvermint(log.NewNopLogger(), db, nil, true, map[int64]bool{}, chainapp.DefaultNodeHome, inv, enc,
-		simtestutil.NewAppOptionsWithFlagHome(chainapp.DefaultNodeHome), bopts...)
+		simtestutil.AppOptionsMap{"home": chainapp.DefaultNodeHome, "evm.tracer": o.EvmTracer}, bopts...)
 	return app, enc
 }
 
@@ -305,6 +309,9 @@ func New(o Opts) *Chain {
 	c.ConsParams = ConsParams(o.MaxGas)
 	if _, err := app.InitChain(&abci.RequestInitChain{ChainId: ChainID, ConsensusParams: c.ConsParams, AppStateBytes: stateBytes, Time: time.Unix(T0, 0).UTC(), InitialHeight: 1}); err != nil {
 		panic(fmt.Errorf("InitChain: %w", err))
+	}
+	if o.SkipFirstBlock {
+		return c
 	}
 	// genesis state becomes readable with the first commit: run the (empty) block 1
 	if bo := c.Deliver(); bo.Panic != nil || bo.Err != nil {
